@@ -1,7 +1,7 @@
 (* Props/C04.v — sum, difference, negation, involutions and grade selection act blade-wise.
    Statements only; proofs in Theory/Product.v and Theory/Bits.v. *)
 From Coq Require Import Ring_theory.
-From KV Require Import Model.All Bridge.Codegen Theory.Sparse Theory.Product Theory.Bits.
+From KV Require Import Model.All Bridge.Codegen Theory.WF Theory.Sparse Theory.Product Theory.Bits Theory.Ops Theory.OpsWF.
 Local Open Scope Z_scope.
 
 Section Ring.
@@ -38,7 +38,56 @@ Section Ring.
     coeff O K (conjugate O A x) =
       if Z.odd (popcount K * (popcount K + 1) / 2) then ropp (coeff O K x) else coeff O K x.
   Proof. intros. rewrite (conjugate_coeff _ _ _ _ _ _ _ Rth) by assumption. rewrite involution_flips_conjugate. reflexivity. Qed.
+
+  Local Notation "x == y" := (equiv rO rI radd rmul rsub ropp x y) (at level 70).
+
+  (* each involution is an involution *)
+  Theorem C04_reverse_involutive : forall A, wf_alg A = true -> forall x : mv R, wfmv A x ->
+    reverse O A (reverse O A x) == x.
+  Proof. intros A H. pose proof (wf_sign_hyps A H) as S.
+    apply (reverse_involutive _ _ _ _ _ _ _ Rth A (sh_keys A S) (sh_nodup A S)). Qed.
+  Theorem C04_involute_involutive : forall A, wf_alg A = true -> forall x : mv R, wfmv A x ->
+    involute O A (involute O A x) == x.
+  Proof. intros A H. pose proof (wf_sign_hyps A H) as S.
+    apply (involute_involutive _ _ _ _ _ _ _ Rth A (sh_keys A S) (sh_nodup A S)). Qed.
+  Theorem C04_conjugate_involutive : forall A, wf_alg A = true -> forall x : mv R, wfmv A x ->
+    conjugate O A (conjugate O A x) == x.
+  Proof. intros A H. pose proof (wf_sign_hyps A H) as S.
+    apply (conjugate_involutive _ _ _ _ _ _ _ Rth A (sh_keys A S) (sh_nodup A S)). Qed.
+
+  (* reverse and conjugate are anti-automorphisms, grade involution an automorphism of the geometric
+     product - in every well-formed algebra *)
+  Theorem C04_reverse_antiautomorphism : forall A, wf_alg A = true -> forall x y : mv R, wfmv A x -> wfmv A y ->
+    reverse O A (gp O A x y) == gp O A (reverse O A y) (reverse O A x).
+  Proof. intros A H. pose proof (wf_sign_hyps A H) as S.
+    apply (reverse_gp _ _ _ _ _ _ _ Rth A (sh_keys A S) (sh_nodup A S) (sh_swap A S)). Qed.
+  Theorem C04_conjugate_antiautomorphism : forall A, wf_alg A = true -> forall x y : mv R, wfmv A x -> wfmv A y ->
+    conjugate O A (gp O A x y) == gp O A (conjugate O A y) (conjugate O A x).
+  Proof. intros A H. pose proof (wf_sign_hyps A H) as S.
+    apply (conjugate_gp _ _ _ _ _ _ _ Rth A (sh_keys A S) (sh_nodup A S) (sh_swap A S)). Qed.
+  Theorem C04_involute_automorphism : forall A, wf_alg A = true -> forall x y : mv R, wfmv A x -> wfmv A y ->
+    involute O A (gp O A x y) == gp O A (involute O A x) (involute O A y).
+  Proof. intros A H. pose proof (wf_sign_hyps A H) as S.
+    apply (involute_gp _ _ _ _ _ _ _ Rth A (sh_keys A S) (sh_nodup A S)). Qed.
+
+  (* a.grade(..) returns exactly the stored coefficients of the requested grades; it raises KeyError
+     exactly for grade tuples that are not strictly increasing within 0..d *)
+  Theorem C04_grade : forall A, wf_alg A = true -> forall (grades : list nat) (x : mv R),
+    (grade_sel O A grades x = Err EKey <-> grades_ok A grades = false) /\
+    (forall r, grade_sel O A grades x = Ok r ->
+      (forall K, 0 <= K < alg_len A ->
+         coeff O K r = if grade_in grades K && zin K (keys x) then coeff O K x else rO) /\
+      (wfmv A x -> NoDup (keys r) /\ forall K, In K (keys r) <-> In K (keys x) /\ grade_in grades K = true)).
+  Proof. intros A H. pose proof (wf_sign_hyps A H) as S.
+    apply (grade_sel_spec _ rO rI radd rmul rsub ropp A (sh_keys A S) (sh_nodup A S) (sh_grade A S)). Qed.
 End Ring.
+Print Assumptions C04_reverse_involutive.
+Print Assumptions C04_involute_involutive.
+Print Assumptions C04_conjugate_involutive.
+Print Assumptions C04_reverse_antiautomorphism.
+Print Assumptions C04_conjugate_antiautomorphism.
+Print Assumptions C04_involute_automorphism.
+Print Assumptions C04_grade.
 Print Assumptions C04_add.
 Print Assumptions C04_sub.
 Print Assumptions C04_sub_only_in_b.
